@@ -81,7 +81,7 @@ func GCFacts(rc *RC, files func(string) bool) (map[string][]string, map[string]s
 	out := map[string][]string{}
 	pos := map[string]string{}
 	skipped := 0
-	for _, fi := range rc.P.SortedFuncs() {
+	for _, fi := range rc.P.AnalysisFuncs() {
 		if fi.Pkg != rc.P.Root || fi.Decl.Body == nil || lcGenerated[fi.File] || strings.HasPrefix(fi.File, "sparse") || (files != nil && !files(fi.File)) {
 			continue
 		}
@@ -145,7 +145,7 @@ func GCFacts(rc *RC, files func(string) bool) (map[string][]string, map[string]s
 // calleesIn lists the module-level callees named in a statement (by their rendered name:
 // `$r.foo(`, `foo(`, `%x.foo(` -> foo), skipping error constructors and builtins.
 func calleesIn(n *ir.Node) []string {
-	s := n.Head
+	s := stripFuncLits(n.Head)
 	var out []string
 	for i := 0; i < len(s); i++ {
 		if s[i] != '(' || i == 0 {
